@@ -20,6 +20,7 @@ var (
 	fIn     = flag.String("in", "", "schedule file (json: one schedule or a list) for replay")
 	fBig    = flag.Int("big", 2, "every k-th random trace uses amounts up to 10^30 (0 = never)")
 	fShard  = flag.Int("shard", 0, "shard index (trace file names)")
+	fDet    = flag.Int("det", 0, "replay every step this many times on sibling branches and compare stores, results and events")
 )
 
 func TestDrive(t *testing.T) {
@@ -38,7 +39,7 @@ func TestDrive(t *testing.T) {
 			cfg := DefaultCfg(r, *fFamily, big)
 			w := NewWorld(t, cfg)
 			pn, every := familyProbes(*fFamily)
-			s := Schedule{Name: fmt.Sprintf("%s/seed%d/shard%d/%d", *fFamily, *fSeed, *fShard, i), Family: *fFamily, Cfg: cfg, Probes: pn, Every: every}
+			s := Schedule{Name: fmt.Sprintf("%s/seed%d/shard%d/%d", *fFamily, *fSeed, *fShard, i), Family: *fFamily, Cfg: cfg, Probes: pn, Every: every, Det: *fDet}
 			g := &Gen{w: w, r: r, family: *fFamily, big: big}
 			RunSchedule(w, &s, tw, g, *fSteps)
 			scheds = append(scheds, s)
